@@ -1,5 +1,4 @@
-import RSocketModel.KeepAlive
-import RSocketModel.Engine.Step
+import RSocketModel.Proofs.C15Lemmas
 /-!
 # C15 — Keepalive: echo, periodic emission, timeout detection
 Property theorems only. Times are integer milliseconds of the virtual clock.
@@ -25,37 +24,6 @@ theorem c15_periodic (t0 P i : Nat) :
     sendTime t0 P 1 = t0 + P ∧ sendTime t0 P (i + 1) = sendTime t0 P i + P := by
   simp [sendTime, Nat.succ_mul, Nat.add_assoc]
 
-theorem foldl_max_ge_init (l : List Nat) (a : Nat) : a ≤ l.foldl max a := by
-  induction l generalizing a with
-  | nil => exact Nat.le_refl a
-  | cons x xs ih => exact Nat.le_trans (Nat.le_max_left a x) (ih (max a x))
-
-theorem foldl_max_ge_mem (l : List Nat) (a x : Nat) (h : x ∈ l) : x ≤ l.foldl max a := by
-  induction l generalizing a with
-  | nil => simp at h
-  | cons y ys ih =>
-    simp only [List.mem_cons] at h
-    rcases h with rfl | h
-    · exact Nat.le_trans (Nat.le_max_right a x) (foldl_max_ge_init ys _)
-    · exact ih _ h
-
-theorem foldl_max_le (l : List Nat) (a T : Nat) (ha : a ≤ T) (hl : ∀ x ∈ l, x ≤ T) : l.foldl max a ≤ T := by
-  induction l generalizing a with
-  | nil => exact ha
-  | cons y ys ih =>
-    exact ih _ (Nat.max_le.mpr ⟨ha, hl y (by simp)⟩) (fun x hx => hl x (by simp [hx]))
-
-theorem lastBefore_le (r0 T : Nat) (arrivals : List Nat) (h : r0 ≤ T) : lastBefore r0 arrivals T ≤ T := by
-  unfold lastBefore
-  apply foldl_max_le _ _ _ h
-  intro x hx
-  simpa using (List.mem_filter.mp hx).2
-
-theorem lastBefore_ge (r0 T a : Nat) (arrivals : List Nat) (ha : a ∈ arrivals) (haT : a ≤ T) :
-    a ≤ lastBefore r0 arrivals T := by
-  unfold lastBefore
-  exact foldl_max_ge_mem _ _ _ (List.mem_filter.mpr ⟨ha, by simpa using haT⟩)
-
 /-- **no false timeout**: a check does not fire when some KEEPALIVE (or the connect instant)
 arrived within the last maximum lifetime before it -/
 theorem c15_no_false_timeout (r0 L T : Nat) (arrivals : List Nat)
@@ -70,11 +38,6 @@ theorem c15_no_false_timeout (r0 L T : Nat) (arrivals : List Nat)
   · have := lastBefore_ge r0 T a arrivals ha h1
     simp only [decide_eq_false_iff_not, Nat.not_lt]
     omega
-
-/-- arrivals at intervals no longer than the maximum lifetime -/
-def GapsOK (L : Nat) : Nat → List Nat → Prop
-  | _, [] => True
-  | prev, a :: rest => prev ≤ a ∧ a ≤ prev + L ∧ GapsOK L a rest
 
 /-- … hence **while KEEPALIVEs keep arriving at intervals ≤ L, no check up to one lifetime after
 the latest arrival ever fires** -/
